@@ -459,6 +459,7 @@ def prop_C17(run):
     rules_asm.argument_context_rules(run)
     rules_asm.new_deepened_rule(run)
     rules_asm.block_label_align(run)
+    rules_asm.inner_failure_rule(run)          # a block that cannot be encoded fails its candidate only (F79, listed)
     import rules_mpt as _rm
     _rm.alignment_rules(run)                   # labels of a block obey the address-unit rule like labels written in place
     rules_asm.fn_rules(run)
